@@ -134,6 +134,25 @@ func c02Run(c *Ctx) {
 			}
 		}
 	}
+	// 2c. operators written without blanks between them: a binary operator followed directly by one or two
+	// prefix operators (`5--3`, `2**-1`, `1<-~2`, `x---y`), for every combination
+	for _, bop := range append([]string{K["or"] + " ", K["and"] + " ", "||", "&&"}, c02BinOps...) {
+		for _, u1 := range []string{"-", "!", "~"} {
+			for _, u2 := range []string{"", "-", "!", "~"} {
+				for _, operands := range [][2]string{{"5", "3"}, {"2", "1"}, {"x", "y"}, {"0", "0.5"}} {
+					l, r := operands[0], operands[1]
+					sp := ""
+					if strings.HasSuffix(bop, " ") {
+						sp = " "
+					}
+					src := Var("x", "6") + "\n" + Var("y", "2") + "\n" + Print(l+sp+bop+u1+u2+r) + "\n" + Print(u1+u2+l+sp+bop+u2+u1+r) + "\n"
+					if c.Mine() {
+						c02Judge(c, &Case{Gen: "tight-spelling", Src: src, X: map[string]string{"op": bop + u1 + u2}})
+					}
+				}
+			}
+		}
+	}
 	// 3. equality laws (no model needed): total, boolean, symmetric, != is the negation, reflexive on non-NaN
 	for _, a := range pool {
 		for _, b := range pool {
@@ -466,7 +485,7 @@ func init() {
 		Run:         c02Run,
 		Judge:       c02Judge,
 		MustCount: func(c *Ctx) []string {
-			return []string{"gen:matrix", "gen:string-coercion", "coercion_consistent", "gen:unary-chains", "gen:literal-operands", "gen:eqlaws", "gen:randdouble", "gen:randbitwise", "gen:nested", "gen:bigpow", "outcome:fault", "outcome:value", "cli_runs"}
+			return []string{"gen:matrix", "gen:string-coercion", "coercion_consistent", "gen:unary-chains", "gen:literal-operands", "gen:tight-spelling", "gen:eqlaws", "gen:randdouble", "gen:randbitwise", "gen:nested", "gen:bigpow", "outcome:fault", "outcome:value", "cli_runs"}
 		},
 	})
 }
